@@ -21,7 +21,8 @@ RULE = (
     "host programs from the C05 grammar whose flush points are drawn as ordinary flush or compile/instantiate/commit; "
     "segments committed via compile() contain >=1 rotation whose numerator is a Template (values 0..255 per name); also "
     "compile-now / other operations and flushes / commit-later histories compared with the same operations flushed in commit order; compiler "
-    "in {none, NV transpiler}; 0..3 further statements+flushes after a precompiled commit.  Non-trivial = a template value "
+    "in {none, NV transpiler}; 0..3 further statements+flushes after a precompiled commit; blocks with two template names, where an "
+    "instantiate() naming only the first (with another value) must fail without touching the block before the complete call.  Non-trivial = a template value "
     "changes the trace (n mod 2^(d+1) != 0) and >=1 later flush follows a precompiled commit; distinct by (AST, valuation)"
 )
 ASSUMPTIONS = [
@@ -58,11 +59,17 @@ def st_case(draw, tier="quick"):
                 values[name] = draw(st.integers(0, 255))
                 d = draw(st.integers(0, 5))
                 qid = 1000 + n_t
+                second = []
                 if draw(st.booleans()):
-                    new_stmts += [["newq", qid], ["rot", draw(st.sampled_from("XYZ")), qid, {"template": name}, d], ["meas", qid, ["elem", 0, 0], False]]
+                    # a second template operand with its own name in the same block
+                    name2 = f"u{n_t}"
+                    values[name2] = draw(st.integers(0, 255))
+                    second = [["rot", draw(st.sampled_from("XYZ")), qid, {"template": name2}, draw(st.integers(0, 5))]]
+                if draw(st.booleans()):
+                    new_stmts += [["newq", qid], ["rot", draw(st.sampled_from("XYZ")), qid, {"template": name}, d]] + second + [["meas", qid, ["elem", 0, 0], False]]
                 else:
                     # outcome kept in a register (RegFuture) of the precompiled block
-                    new_stmts += [["newq", qid], ["rot", draw(st.sampled_from("XYZ")), qid, {"template": name}, d], ["meas", qid, ["newregm", 500 + n_t], False]]
+                    new_stmts += [["newq", qid], ["rot", draw(st.sampled_from("XYZ")), qid, {"template": name}, d]] + second + [["meas", qid, ["newregm", 500 + n_t], False]]
                 new_stmts.append(["pflush"])
             else:
                 new_stmts.append(["flush"])
@@ -78,7 +85,7 @@ def st_case(draw, tier="quick"):
         for _ in range(draw(st.integers(0, 2))):
             new_stmts += [["add", ["elem", 0, 0], draw(st.integers(0, 3)), None], ["flush"]]
     nv = draw(st.integers(0, 2)) == 0
-    return {"stmts": new_stmts, "outcomes": prog["outcomes"], "qubits": 2, "values": values, "nv": nv}
+    return {"stmts": new_stmts, "outcomes": prog["outcomes"], "qubits": 2, "values": values, "nv": nv, "fail_first": draw(st.booleans())}
 
 
 @st.composite
@@ -186,6 +193,26 @@ class Recorder:
         self.held = None
         self._n_subs_seen = 0
         self.no_instantiate = bool(case.get("no_instantiate"))
+        self.fail_first = bool(case.get("fail_first")) and flow == "A"
+        self.n_failed_first = 0
+
+    def incomplete_first(self, sub) -> None:
+        """an instantiate() call that names only the first template of the block (and a different value for it) fails and
+        must leave the compiled block as it was, so that the complete call that follows still fills every operand"""
+        from netqasm.lang.operand import Template
+
+        if not self.fail_first:
+            return
+        names = [op.name for ins in sub.instructions for op in ins.operands if isinstance(op, Template)]
+        distinct = list(dict.fromkeys(names))
+        if len(distinct) < 2:
+            return
+        try:
+            sub.instantiate(self.conn.app_id, {distinct[0]: (self.values[distinct[0]] + 1) % 256})
+        except Exception:
+            self.n_failed_first += 1
+            return
+        raise Failure("instantiate:incomplete-accepted", {"values": self.values}, f"instantiate() with a value for {distinct[0]} only did not raise although the block also needs {distinct[1:]}")
 
     def run(self, stmts):
         from netqasm.lang.operand import Template
@@ -206,6 +233,7 @@ class Recorder:
                 if s[0] == "pcommit":
                     if rec.held is not None:
                         if not rec.no_instantiate:
+                            rec.incomplete_first(rec.held)
                             rec.held.instantiate(self.conn.app_id, dict(rec.values))
                         self.conn.commit_subroutine(rec.held)
                     self.on_flush(self.n_flush)
@@ -215,6 +243,7 @@ class Recorder:
                     if rec.flow == "A":
                         sub = self.conn.compile()
                         if sub is not None:
+                            rec.incomplete_first(sub)
                             sub.instantiate(self.conn.app_id, dict(rec.values))
                             self.conn.commit_subroutine(sub)
                     else:
@@ -289,7 +318,7 @@ def check(case) -> Dict[str, Any]:
                 raise Failure(f"A-vs-B:{key}", case, f"flush {k}: {what} differ: precompiled flow {ra[key]} vs direct flow {rb[key]}")
     if A.error != B.error or len(A.records) != len(B.records):
         raise Failure("A-vs-B:error", case, f"precompiled flow ended with {A.error} after {len(A.records)} flushes, direct flow with {B.error} after {len(B.records)}")
-    info = {"flushes": n, "error": A.error}
+    info = {"flushes": n, "error": A.error, "failed_first": A.n_failed_first}
     if not case["nv"] and A.error is None:
         # flow A against direct execution of the program with the values substituted
         prog = {"stmts": _subst(stmts, case["values"]), "outcomes": case["outcomes"], "qubits": case["qubits"]}
@@ -335,6 +364,8 @@ def shard(ctx: Ctx) -> None:
             labels.append("flush-after-precompiled")
         if info.get("error"):
             labels.append("both-flows-raise")
+        if info.get("failed_first"):
+            labels.append("incomplete-instantiate-before-the-complete-one")
         stt.case([case["stmts"], case["values"], case["nv"]], nt, labels, sample=case if len(str(case)) < 700 else None)
 
     ctx.search(st_case(ctx.tier), body, n, name="c06")
